@@ -270,14 +270,14 @@ def check_eig(case):
 # ------------------------------------------------------------------------------------------------
 # text: AMN
 
-amn_st = st.fixed_dictionaries(dict(NK=st.integers(1, 6), NB=st.integers(1, 6), NWd=st.integers(0, 5), vals=_vals, rs=_rs))
+amn_st = st.fixed_dictionaries(dict(NK=st.integers(1, 6), NB=st.integers(1, 6), NWr=st.sampled_from(range(6)), vals=_vals, rs=_rs))
 
 
 def check_amn(case):
     from wannierberri.w90files.amn import AMN
     rng = rng_of(case["rs"])
     NK, NB = case["NK"], case["NB"]
-    NW = max(1, NB - case["NWd"])
+    NW = 1 + case["NWr"] % NB
     A = values(rng, (NK, NB, NW), case["vals"])
     amn = AMN(data={ik: A[ik].copy() for ik in range(NK)}, NK=NK)
     with scratch_dir() as d:
@@ -298,11 +298,18 @@ def check_amn(case):
 # text: MMN (with a real BKVectors)
 
 MP_GRIDS = [[1, 1, 1], [2, 1, 1], [1, 2, 1], [2, 2, 1], [1, 1, 3], [3, 2, 1], [2, 2, 2], [1, 3, 2], [3, 2, 2], [4, 1, 1]]
-BK_LATTICES = ["generic", "sc", "fcc", "bcc", "tetragonal", "orthorhombic", "hexagonal", "rhombohedral", "monoclinic"]
+# lattices for which BKVectors.from_kpoints finds its shells (rhombohedral cells and bcc with anisotropic meshes are
+# refused by find_bk_vectors - subject of C22; a refusal is counted as Reject here)
+BK_LATTICES = ["generic", "sc", "fcc", "bcc", "tetragonal", "orthorhombic", "hexagonal", "monoclinic"]
+
+
+def _bk_ok(c):
+    return c["lat"]["kind"] != "bcc" or len(set(c["mp"])) == 1
+
 
 mmn_st = st.fixed_dictionaries(dict(lat=wbsys.lattice_st(kinds=BK_LATTICES), mp=st.sampled_from(MP_GRIDS),
                                     NB=st.integers(1, 4), vals=_vals, rs=_rs, select=st.booleans(),
-                                    via=st.sampled_from(["direct", "direct", "container"])))
+                                    via=st.sampled_from(["direct", "direct", "container"]))).filter(_bk_ok)
 
 
 def check_mmn(case):
@@ -346,9 +353,9 @@ def check_mmn(case):
 NPZ_KINDS = ["EIG", "AMN", "MMN", "UHU", "UIU", "SIU", "SHU", "SPN", "SOC", "UNK", "BKVectors", "CheckPoint", "WIN"]
 
 npz_st = st.fixed_dictionaries(dict(kind=st.sampled_from(NPZ_KINDS), NK=st.integers(1, 6), NB=st.integers(1, 5),
-                                    NWd=st.integers(0, 4), NNB=st.integers(1, 8), sparse=st.booleans(), vals=_vals, rs=_rs,
-                                    opt=st.lists(st.booleans(), min_size=6, max_size=6),
-                                    lat=wbsys.lattice_st(kinds=BK_LATTICES), mp=st.sampled_from(MP_GRIDS)))
+                                    NWr=st.sampled_from(range(6)), NNB=st.integers(1, 8), sparse=st.booleans(), vals=_vals,
+                                    rs=_rs, optbits=st.sampled_from(range(16)),
+                                    lat=wbsys.lattice_st(kinds=BK_LATTICES), mp=st.sampled_from(MP_GRIDS))).filter(_bk_ok)
 
 
 def build_object(case, rng):
@@ -359,10 +366,10 @@ def build_object(case, rng):
     from wannierberri.w90files.win import WIN
     kind = case["kind"]
     NK, NB, NNB = case["NK"], case["NB"], case["NNB"]
-    NW = max(1, NB - case["NWd"])
+    NW = 1 + case["NWr"] % NB
     ks = present_kpoints(NK, case["sparse"], rng)
     mode = case["vals"]
-    opt = case["opt"]
+    opt = [bool(case["optbits"] >> i & 1) for i in range(4)]
 
     def kd(shape):
         return {ik: values(rng, shape, mode) for ik in ks}
@@ -467,9 +474,9 @@ def check_npz(case):
 BOX_OPTIONAL = ["spn", "uhu", "uiu", "siu", "shu", "amn", "eig"]
 
 box_st = st.fixed_dictionaries(dict(lat=wbsys.lattice_st(kinds=BK_LATTICES), mp=st.sampled_from(MP_GRIDS[:9]),
-                                    NB=st.integers(1, 4), NWd=st.integers(0, 3), vals=_vals, rs=_rs, sparse=st.booleans(),
+                                    NB=st.integers(1, 4), NWr=st.sampled_from(range(4)), vals=_vals, rs=_rs, sparse=st.booleans(),
                                     files=st.lists(st.sampled_from(BOX_OPTIONAL), unique=True, max_size=5),
-                                    chk_v=st.booleans()))
+                                    chk_v=st.booleans())).filter(_bk_ok)
 
 
 def check_box(case):
@@ -483,7 +490,7 @@ def check_box(case):
     sparse = len(ks) < nk
     bkvec, kpts = make_bkvec(case["lat"], mp, rng, kptirr=ks if sparse else None)
     NK, NNB, NB = bkvec.NK, bkvec.NNB, case["NB"]
-    NW = max(1, NB - case["NWd"])
+    NW = 1 + case["NWr"] % NB
     mode = case["vals"]
 
     def kd(shape, cplx=True):
